@@ -187,6 +187,18 @@ func checkC04(P *Prog, r *Result) {
 		return funcPkgPath(fn) == pkgInternals
 	})
 	r.floor("C04/absent-at-provider", 3)
+	// a required/not_nil issue must reach the collection: the context of a non-catching node is catch-clean
+	ca := P.newCatchAnalysis()
+	dsites := P.allDispatchSites(ca)
+	names := siteNames(dsites)
+	for i, s := range dsites {
+		if len(s.dirty) > 0 {
+			r.bad("C04/required-not-swallowed", names[i], P.ipos(s.at), "the required/not_nil issue of an absent child can be swallowed: "+flagNames(s.dirty)+" may still be set on the context it receives")
+		} else {
+			r.ok("C04/required-not-swallowed", names[i], P.ipos(s.at), "child context catch-clean")
+		}
+	}
+	r.floor("C04/required-not-swallowed", 30)
 	_ = R
 }
 
